@@ -9,17 +9,22 @@ From Proofs Require Import UriLists UriQuote.
 Import ListNotations.
 Open Scope N_scope.
 
-Ltac chars2 := unfold netloc_char, port_char, host_char, path_char, unreserved_or_pct in *; chars.
+(* like netloc_char, but brackets may occur (they are judged by bracket_stage) *)
+Definition netloc_char0 (c : N) : bool := is_ascii c && negb (is_netloc_end c) && negb (is_tcn c).
+
+Ltac chars2 := unfold netloc_char0, netloc_char, port_char, host_char, ip6_char, path_char, unreserved_or_pct in *; chars.
 
 Lemma scheme_char_not_colon c : scheme_char c = true -> negb (c =? 58) = true.
 Proof. chars. lia. Qed.
 Lemma scheme_char_not_tcn c : scheme_char c = true -> negb (is_tcn c) = true.
 Proof. chars. lia. Qed.
-Lemma netloc_char_not_tcn c : netloc_char c = true -> negb (is_tcn c) = true.
+Lemma netloc_char_not_tcn c : netloc_char0 c = true -> negb (is_tcn c) = true.
 Proof. chars2. lia. Qed.
-Lemma netloc_char_not_end c : netloc_char c = true -> negb (is_netloc_end c) = true.
+Lemma netloc_char_not_end c : netloc_char0 c = true -> negb (is_netloc_end c) = true.
 Proof. chars2. lia. Qed.
-Lemma netloc_char_ascii c : netloc_char c = true -> is_ascii c = true.
+Lemma netloc_char_ascii c : netloc_char0 c = true -> is_ascii c = true.
+Proof. chars2. lia. Qed.
+Lemma netloc_char_0 c : netloc_char c = true -> netloc_char0 c = true.
 Proof. chars2. lia. Qed.
 
 Lemma valid_scheme_inv name :
@@ -47,7 +52,7 @@ Proof.
 Qed.
 
 Lemma span_netloc netloc tail :
-  forallb netloc_char netloc = true -> tail_ok tail = true ->
+  forallb netloc_char0 netloc = true -> tail_ok tail = true ->
   span_until is_netloc_end (netloc ++ tail) = (netloc, tail).
 Proof.
   intros Hn Ht. assert (Hn' : forallb (fun c => negb (is_netloc_end c)) netloc = true).
@@ -63,16 +68,22 @@ Proof.
   intros Hn. split; apply chr_in_nochar; (eapply forallb_imp; [|exact Hn]); intros c; chars2; lia.
 Qed.
 
+Lemma bracket_stage_plain netloc : forallb netloc_char netloc = true -> bracket_stage netloc = true.
+Proof.
+  intros Hn. destruct (netloc_no_bracket _ Hn) as [H1 H2]. unfold bracket_stage. rewrite H1, H2. reflexivity.
+Qed.
+
 Definition mk_split (scheme netloc tail : str) : split5 :=
   let '(p, q, f) := split_query_fragment tail in
   {| sp_scheme := scheme; sp_netloc := netloc; sp_path := p; sp_query := q; sp_fragment := f |}.
 
 Lemma urlsplit_clean_shape name netloc tail :
-  valid_scheme name = true -> forallb netloc_char netloc = true -> tail_ok tail = true ->
+  valid_scheme name = true -> forallb netloc_char0 netloc = true -> bracket_stage netloc = true ->
+  tail_ok tail = true ->
   urlsplit_clean (name ++ 58 :: 47 :: 47 :: netloc ++ tail) = ROk (mk_split (lower_ascii name) netloc tail).
 Proof.
-  intros Hv Hn Ht. unfold urlsplit_clean, mk_split. rewrite (split_scheme_app _ _ Hv).
-  rewrite (span_netloc _ _ Hn Ht). destruct (netloc_no_bracket _ Hn) as [H1 H2]. rewrite H1, H2. cbn [andb orb negb].
+  intros Hv Hn Hb Ht. unfold urlsplit_clean, mk_split. rewrite (split_scheme_app _ _ Hv).
+  rewrite (span_netloc _ _ Hn Ht). rewrite Hb. cbn [negb].
   destruct (split_query_fragment tail) as [[p q] f].
   replace (forallb is_ascii netloc) with true; [reflexivity|].
   symmetry. eapply forallb_imp; [|exact Hn]. apply netloc_char_ascii.
@@ -91,11 +102,12 @@ Proof.
 Qed.
 
 Lemma urlsplit_shape name netloc tail :
-  valid_scheme name = true -> forallb netloc_char netloc = true -> tail_ok tail = true ->
+  valid_scheme name = true -> forallb netloc_char0 netloc = true -> bracket_stage netloc = true ->
+  tail_ok tail = true ->
   urlsplit (name ++ 58 :: 47 :: 47 :: netloc ++ tail)
   = ROk (mk_split (lower_ascii name) netloc (remove_tcn tail)).
 Proof.
-  intros Hv Hn Ht. unfold urlsplit.
+  intros Hv Hn Hb Ht. unfold urlsplit.
   destruct (valid_scheme_inv _ Hv) as (c & r & E & Ha & Hs).
   assert (Hl : lstrip_c0 (name ++ 58 :: 47 :: 47 :: netloc ++ tail) = name ++ 58 :: 47 :: 47 :: netloc ++ tail).
   { rewrite E. cbn [app lstrip_c0]. replace (c <=? 32) with false; [reflexivity|]. revert Ha. chars. lia. }
@@ -103,7 +115,7 @@ Proof.
   replace (name ++ 58 :: 47 :: 47 :: netloc ++ tail) with ((name ++ 58 :: 47 :: 47 :: netloc) ++ tail)
     by (rewrite <- app_assoc; reflexivity).
   rewrite remove_tcn_app, remove_tcn_id.
-  - rewrite <- app_assoc. cbn [app]. apply urlsplit_clean_shape; [assumption|assumption|apply tail_ok_remove, Ht].
+  - rewrite <- app_assoc. cbn [app]. apply urlsplit_clean_shape; [assumption|assumption|assumption|apply tail_ok_remove, Ht].
   - rewrite forallb_app. cbn [forallb]. rewrite andb_true_iff. split.
     + rewrite <- E in Hs. eapply forallb_imp; [|exact Hs]. apply scheme_char_not_tcn.
     + cbn [negb is_tcn N.eqb orb andb]. eapply forallb_imp; [|exact Hn]. apply netloc_char_not_tcn.
@@ -111,11 +123,11 @@ Qed.
 
 (* ------------------------------------------------------------------ _parseURI on such a text *)
 Lemma parse_uri_err nt name netloc tail e :
-  valid_scheme name = true -> forallb netloc_char netloc = true -> tail_ok tail = true ->
-  port_of netloc = RErr e ->
+  valid_scheme name = true -> forallb netloc_char0 netloc = true -> bracket_stage netloc = true ->
+  tail_ok tail = true -> checked_port netloc = RErr e ->
   parse_uri nt (name ++ 58 :: 47 :: 47 :: netloc ++ tail) = RErr e.
 Proof.
-  intros Hv Hn Ht He. unfold parse_uri, urlparse. rewrite (urlsplit_shape _ _ _ Hv Hn Ht).
+  intros Hv Hn Hb Ht He. unfold parse_uri, urlparse. rewrite (urlsplit_shape _ _ _ Hv Hn Hb Ht).
   unfold mk_split. destruct (split_query_fragment (remove_tcn tail)) as [[p q] f]. cbn [rbind sp_scheme sp_path].
   match goal with |- context [if ?b then _ else _] => destruct b end.
   - destruct (splitparams p) as [pp pa]. cbn [rbind p_netloc sp_netloc]. rewrite He. reflexivity.
@@ -139,16 +151,17 @@ Definition parsed_of (netloc path : str) (po : option N) : pres :=
   {| r_user := unquote_if_truthy (fst (userinfo netloc));
      r_pw := unquote_if_truthy (snd (userinfo netloc));
      r_host := hostname netloc;
-     r_port := match po with Some 0 => None | x => x end;
+     r_port := po;
      r_path := unquote (47 :: path);
      r_args := [] |}.
 
 Lemma parse_uri_ok name netloc path :
-  valid_scheme name = true -> forallb netloc_char netloc = true -> forallb pathq_ok path = true ->
+  valid_scheme name = true -> forallb netloc_char0 netloc = true -> bracket_stage netloc = true ->
+  forallb pathq_ok path = true ->
   parse_uri false (name ++ 58 :: 47 :: 47 :: netloc ++ 47 :: path)
-  = (po <~ port_of netloc ;; ROk (parsed_of netloc path po)).
+  = (po <~ checked_port netloc ;; ROk (parsed_of netloc path po)).
 Proof.
-  intros Hv Hn Hp. unfold parse_uri, urlparse. rewrite (urlsplit_shape name netloc (47 :: path) Hv Hn eq_refl).
+  intros Hv Hn Hb Hp. unfold parse_uri, urlparse. rewrite (urlsplit_shape name netloc (47 :: path) Hv Hn Hb eq_refl).
   rewrite remove_tcn_id.
   2:{ cbn [forallb is_tcn N.eqb orb negb andb]. eapply forallb_imp; [|exact Hp]. intros c. unfold pathq_ok. chars. lia. }
   unfold mk_split. rewrite (split_qf_path _ Hp). cbn [rbind sp_scheme sp_path sp_netloc sp_query sp_fragment].
